@@ -83,6 +83,7 @@ class StampRun:
         self.monitors = []             # [monitor, included, rounds seen]
         self.raised = None
         self.steps = 0
+        self.peers = []                # StampRuns of other scheduler instances living in the same Environment (family `multi`)
         sched.out = Recorder(self)
         self._orig_put = sched.put
         sched.put = self._tapped_put
@@ -152,70 +153,84 @@ class StampRun:
         return self
 
     def _run(self, max_steps):
-        env, loop, s = self.env, self.loop, self.sched
+        """steps the kernel; every scheduler instance of the group (this one and its `peers`) reads its own progress off
+        its own public state before and after each kernel step and keeps its own action / observation / history streams"""
+        env = self.env
+        group = [self] + self.peers
         while env.peek() < INF and self.steps < max_steps:
             self.steps += 1
             t = env.peek()
-            if t > env.now:
-                self.acts.append(f'tick {bits(t)}')
-                self.obs.append(f'tick - | {self.snap(now=t)}')
-                self.hist.append(('tick', t, phase_of(loop), len(s.store.items)))
-            ph0, tgt0 = phase_of(loop), loop.target
-            waiting = [it.item for it in s.store.items if hasattr(it, 'item')]
-            n_out = len(self.outs)
-            cur0 = s.packet_in_service
+            for g in group:
+                g._pre(t)
             with quiet():
                 env.step()
-            if self.raised:             # a tapped put raised: the case ends there
+            if any(g.raised for g in group):    # a tapped put raised: the case ends there
+                if not self.raised:
+                    self.raised = next(g.raised for g in group if g.raised)
                 return
-            ph1, tgt1 = phase_of(loop), loop.target
-            label = None
-            if ph1 != ph0 or tgt1 is not tgt0:
-                chosen = None
-                if ph1 == 'H':
-                    item = tgt1.value
-                    chosen = item.item
-                if ph0 == 'I':
-                    label = 'init' + (f' {chosen.packet_id}' if chosen is not None else '')
-                elif ph0 == 'W' and ph1 == 'H':
-                    label = f'handoff {chosen.packet_id}'
-                elif ph0 == 'H' and ph1 == 'S':
-                    label = 'resume'
-                elif ph0 == 'S' and ph1 == 'T':
-                    label = 'sendInit'
-                elif ph0 == 'T' and ph1 == 'D':
-                    label = 'sendFire'
-                elif ph0 == 'D' and ph1 in ('W', 'H'):
-                    label = 'sendDone' + (f' {chosen.packet_id}' if chosen is not None else '')
-                else:
-                    label = f'?{ph0}{ph1}'
-                if chosen is not None:
-                    self.hist.append(('choose', env.now, chosen, waiting))
-                if label == 'sendInit':
-                    self.hist.append(('start', env.now, s.packet_in_service))
-                if ph0 == 'D':
-                    self.hist.append(('done', env.now, self.dev_figures()))
-                out = f'dep {self.outs[n_out].packet_id}' if len(self.outs) > n_out else '-'
-                self.acts.append(label)
-                self.obs.append(f'{label.split(" ")[0]} {out} | {self.snap()}')
-                self.hist.append(('snap', env.now, self.public()))
-            elif len(self.outs) > n_out:
-                self.acts.append('sendFire')
-                self.obs.append(f'UNLABELLED-OUT {self.outs[n_out].packet_id}')
-            elif cur0 is not s.packet_in_service:
-                self.acts.append('sendInit')
-                self.obs.append('UNLABELLED-CURRENT-PACKET')
-            for m in self.monitors:
-                mon = m[0]
-                n = sum(len(v) for v in mon.sizes.values())
-                if n != m[2]:
-                    m[2] = n
-                    flows = [f for f in s.all_flows() if mon.sizes.get(f)]
-                    line = ','.join(f'{f}:{mon.sizes[f][-1]}:{mon.byte_sizes[f][-1]}' for f in flows)
-                    self.acts.append(f'sample {1 if m[1] else 0}')
-                    self.obs.append(f'sample {line}')
-                    self.hist.append(('sample', env.now, m[1], {f: (mon.sizes[f][-1], mon.byte_sizes[f][-1]) for f in flows},
-                                      s.packet_in_service))
+            for g in group:
+                g._post()
+
+    def _pre(self, t):
+        env, loop, s = self.env, self.loop, self.sched
+        if t > env.now:
+            self.acts.append(f'tick {bits(t)}')
+            self.obs.append(f'tick - | {self.snap(now=t)}')
+            self.hist.append(('tick', t, phase_of(loop), len(s.store.items)))
+        self._before = (phase_of(loop), loop.target, [it.item for it in s.store.items if hasattr(it, 'item')],
+                        len(self.outs), s.packet_in_service)
+
+    def _post(self):
+        env, loop, s = self.env, self.loop, self.sched
+        ph0, tgt0, waiting, n_out, cur0 = self._before
+        ph1, tgt1 = phase_of(loop), loop.target
+        label = None
+        if ph1 != ph0 or tgt1 is not tgt0:
+            chosen = None
+            if ph1 == 'H':
+                item = tgt1.value
+                chosen = item.item
+            if ph0 == 'I':
+                label = 'init' + (f' {chosen.packet_id}' if chosen is not None else '')
+            elif ph0 == 'W' and ph1 == 'H':
+                label = f'handoff {chosen.packet_id}'
+            elif ph0 == 'H' and ph1 == 'S':
+                label = 'resume'
+            elif ph0 == 'S' and ph1 == 'T':
+                label = 'sendInit'
+            elif ph0 == 'T' and ph1 == 'D':
+                label = 'sendFire'
+            elif ph0 == 'D' and ph1 in ('W', 'H'):
+                label = 'sendDone' + (f' {chosen.packet_id}' if chosen is not None else '')
+            else:
+                label = f'?{ph0}{ph1}'
+            if chosen is not None:
+                self.hist.append(('choose', env.now, chosen, waiting))
+            if label == 'sendInit':
+                self.hist.append(('start', env.now, s.packet_in_service))
+            if ph0 == 'D':
+                self.hist.append(('done', env.now, self.dev_figures()))
+            out = f'dep {self.outs[n_out].packet_id}' if len(self.outs) > n_out else '-'
+            self.acts.append(label)
+            self.obs.append(f'{label.split(" ")[0]} {out} | {self.snap()}')
+            self.hist.append(('snap', env.now, self.public()))
+        elif len(self.outs) > n_out:
+            self.acts.append('sendFire')
+            self.obs.append(f'UNLABELLED-OUT {self.outs[n_out].packet_id}')
+        elif cur0 is not s.packet_in_service:
+            self.acts.append('sendInit')
+            self.obs.append('UNLABELLED-CURRENT-PACKET')
+        for m in self.monitors:
+            mon = m[0]
+            n = sum(len(v) for v in mon.sizes.values())
+            if n != m[2]:
+                m[2] = n
+                flows = [f for f in s.all_flows() if mon.sizes.get(f)]
+                line = ','.join(f'{f}:{mon.sizes[f][-1]}:{mon.byte_sizes[f][-1]}' for f in flows)
+                self.acts.append(f'sample {1 if m[1] else 0}')
+                self.obs.append(f'sample {line}')
+                self.hist.append(('sample', env.now, m[1], {f: (mon.sizes[f][-1], mon.byte_sizes[f][-1]) for f in flows},
+                                  s.packet_in_service))
 
 
 def source(env, run, script, counter):
@@ -233,9 +248,8 @@ def header(c):
     return f"CASE {c['cid']} {c['kind']} {bits(c['rate'])} W {len(c['table'])} {tab} F {len(c['f2c'])} {f2c}".replace('  ', ' ')
 
 
-def run_impl(c):
-    """build the scheduler of case `c`, run it to exhaustion, return the StampRun"""
-    env = Environment()
+def build_instance(env, c):
+    """the scheduler of (sub-)case `c` with its sources and monitors in `env`; returns its StampRun (not yet run)"""
     table = {int(k): v for k, v in c['table']}
     f2c = {int(f): int(k) for f, k in c['f2c']}
     kw = {}
@@ -256,6 +270,16 @@ def run_impl(c):
             return m['period'] if n[0] <= m.get('rounds', 30) else INF
         mon = Monitor(env, sched, dist, m['included'])
         run.add_monitor(mon, m['included'])
+    return run
+
+
+def run_impl(c):
+    """build the scheduler of case `c` - and, for a `multi` case, the other scheduler instances (`peers`) that live and
+    carry traffic in the same Environment - run to exhaustion, return the StampRun (the peers' runs in `.peers`)"""
+    env = Environment()
+    run = build_instance(env, c)
+    for pc in c.get('peers') or []:
+        run.peers.append(build_instance(env, pc))
     run.run()
     return run
 
@@ -277,17 +301,42 @@ INT_W = [1, 1, 2, 3, 4, 5, 8]
 DYADIC_W = [0.25, 0.5, 0.75, 1.0, 1.5, 2.0, 3.0, 4.0]
 ANY_W = [0.1, 0.3, 0.7, 1.1, 2.5, 1 / 3]
 VTICKS = [0.125, 0.25, 0.5, 1.0, 2.0, 1, 2, 3, 0.1, 0.3, 0.001, 1.5]
-FAMILIES = ['random'] * 7 + ['static'] * 3 + ['ties'] * 3 + ['idle'] * 2 + ['edge'] * 4 + ['busyend'] * 2 + ['malformed']
+FAMILIES = ['random'] * 7 + ['static'] * 3 + ['ties'] * 3 + ['idle'] * 2 + ['edge'] * 4 + ['busyend'] * 2 + ['malformed'] + ['multi'] * 2
 
 
-def gen_case(rng, cid, kind=None, family=None):
+def gen_multi(rng, cid, kind):
+    """several scheduler instances alive in ONE Environment, each with its own table, sources and monitors, with
+    overlapping class ids (the output ports of a switch, the hops of a path): the per-scheduler state of the property
+    (finish stamps, virtual time, auxVC) is the state of THAT scheduler.  Every instance is observed, replayed through
+    the model as a case of its own, and judged by the stamp and order oracles on its own arrivals only."""
+    base = rng.choice(['random', 'random', 'edge', 'static', 'ties', 'idle'])
+    c = gen_case(rng, cid, kind, base)
+    c['family'], c['base_family'] = 'multi', base
+    classes = [k for k, _ in c['table']]
+    c['peers'] = []
+    for j in range(rng.choice([1, 1, 2])):
+        other = 'vc' if c['kind'] == 'wfq' else 'wfq'
+        p = gen_case(rng, f'{cid}.p{j + 1}', c['kind'] if rng.random() < 0.7 else other,
+                     rng.choice(['random', 'random', 'edge', 'static', 'idle']), share=classes,
+                     rate=c['rate'] if rng.random() < 0.6 else None)
+        p['monitors'] = p['monitors'][:1]
+        c['peers'].append(p)
+    return c
+
+
+def gen_case(rng, cid, kind=None, family=None, share=None, rate=None):
     kind = kind or rng.choice(['wfq', 'wfq', 'vc'])
     family = family or rng.choice(FAMILIES)
-    rate = rng.choice(list(UNIT))
+    if family == 'multi':
+        return gen_multi(rng, cid, kind)
+    rate = rate if rate is not None else rng.choice(list(UNIT))
     unit = UNIT[rate]
     ts = unit * 8.0 / rate                      # transmission time of one unit
     ncls = rng.choice([1, 2, 2, 3, 3, 4])
     classes = sorted(rng.sample(range(12), ncls))
+    if share:                                   # an instance of a `multi` group: at least one class id in common with the first
+        common = rng.sample(sorted(share), rng.randint(1, min(len(share), ncls)))
+        classes = sorted(common + rng.sample([k for k in range(12) if k not in share], ncls - len(common)))
     if kind == 'wfq':
         style = rng.choice(['int', 'dyadic', 'mixed', 'equal'] + (['any'] if ncls <= 2 else []))
         pool = {'int': INT_W, 'dyadic': DYADIC_W, 'mixed': INT_W + DYADIC_W, 'any': ANY_W, 'equal': [rng.choice(INT_W + DYADIC_W)]}[style]
@@ -381,7 +430,9 @@ def gen_case(rng, cid, kind=None, family=None):
 
 
 def replay(cases, chunk=400):
-    """run every case on the implementation and through the model; returns [(case, StampRun, model lines)]"""
+    """run every case on the implementation and through the model; returns [(case, StampRun, model lines)].
+    The instances of a `multi` case are replayed as cases of their own (`<cid>.p<j>`); their observation and model
+    streams are appended to those of the first instance behind a `PEER j` line, so that one comparison covers the group."""
     from vlib.util import run_driver, split_cases
     out = []
     for i in range(0, len(cases), chunk):
@@ -390,16 +441,43 @@ def replay(cases, chunk=400):
             r = run_impl(c)
             runs[c['cid']] = r
             text.append(header(c)); text += r.acts; text.append('END')
+            for j, (pc, pr) in enumerate(zip(c.get('peers') or [], r.peers)):
+                text.append(header(dict(pc, cid=f"{c['cid']}.p{j + 1}"))); text += pr.acts; text.append('END')
         model = split_cases(run_driver('stamp', '\n'.join(text) + '\n'))
         for c in part:
-            out.append((c, runs[c['cid']], model.get(c['cid'])))
+            r, m = runs[c['cid']], model.get(c['cid'])
+            for j, pr in enumerate(r.peers):
+                pm = model.get(f"{c['cid']}.p{j + 1}")
+                r.obs = r.obs + [f'PEER {j + 1}'] + pr.obs
+                m = None if (m is None or pm is None) else m + [f'PEER {j + 1}'] + pm
+            out.append((c, r, m))
     return out
 
 
 def expected_stamps(c, run):
     """Direct oracle for the stamps, independent of the Lean model: recompute every stamp from the observed
     history of arrivals and service-end bookkeeping bursts, with the float expression order of the
-    specification.  Returns ({packet id: (stamp, arrival instant)}, [failures])."""
+    specification.  Returns ({packet id: (stamp, arrival instant)}, [failures]).
+
+    For a `multi` case the other instances of the group are judged here too, each on its own history only: C14's
+    `auxVC_c = max(now, auxVC_c) + vtick_c` / `F = max(F of c's previous packet, V) + ...` speak of the state of the
+    scheduler the packet arrives at, and "transmits next the waiting packet with the smallest stamp" of the packets
+    waiting at that scheduler - whatever other schedulers with the same class ids do in the same process."""
+    exp, fails = _expected_stamps(c, run)
+    for j, (pc, pr) in enumerate(zip(c.get('peers') or [], getattr(run, 'peers', []))):
+        exp_p, fp = _expected_stamps(pc, pr)
+        fo, _, _ = order_oracle(pr, exp_p)
+        for f in fp + fo:
+            f['what'] = f'instance {j + 2} of {len(run.peers) + 1} schedulers in one Environment ({pc["kind"]}, classes {sorted(k for k, _ in pc["table"])}): ' + f['what']
+            fails.append(f)
+    if getattr(run, 'peers', None):
+        for f in fails:
+            if not f['what'].startswith('instance '):
+                f['what'] = f'instance 1 of {len(run.peers) + 1} schedulers in one Environment: ' + f['what']
+    return exp, fails
+
+
+def _expected_stamps(c, run):
     table = {int(k): v for k, v in c['table']}
     f2c = {int(f): int(k) for f, k in c['f2c']}
     rate = c['rate']
